@@ -24,7 +24,10 @@ PJ(st) == [ent   |-> [p \in Prefix |-> SeqOf(st.ent[p])],
            ecmp  |-> [p \in Prefix |-> SeqOf(EcmpSet(st, p))],
            stale |-> st.stale, llgr |-> st.llgr, nhbad |-> SeqOf(st.nhbad),
            did   |-> st.did, stats |-> st.stats, cnt |-> st.cnt, defer |-> st.defer,
-           closed |-> SeqOf(st.closed)]
+           closed |-> SeqOf(st.closed),
+           \* C20: what replaying the FIB requests must yield, and the outstanding next-hop registrations
+           fib   |-> [p \in Prefix |-> SeqOf({e.nh : e \in EcmpSet(st, p)})],
+           reg   |-> [n \in NextHops |-> Cardinality({<<p, e>> \in (Prefix \X UNION {st.ent[q] : q \in Prefix}) : e \in st.ent[p] /\ e.nh = n})]]
 
 \* walk mode (tlc -simulate, one worker): consecutive lines form a behaviour
 EmitWalk == \/ act.k = "init" /\ PrintT("INIT")
